@@ -135,6 +135,25 @@ def reused_strategy(ctx):
                 ctx.fail("not-the-core", f"reduction #{r + 1} with one strategy object, n={n} core={list(core)}: final atoms {got}", case)
             if tests > bound(n, len(core)):
                 ctx.fail("too-many-tests", f"reduction #{r + 1} with one strategy object, n={n} m={len(core)}: {tests} tests > bound", case)
+    # a small file first, then a much larger one, with the same strategy object: the options are those of a fresh strategy both times
+    st = strat.make_strategy("minimize", {})
+    for n, core in ((3, (1,)), (256, (7, 200)), (5, (0, 4)), (1024, (512,))):
+        parts = atoms("line", n)
+        index = {p: i for i, p in enumerate(parts)}
+        tc = strat.testcase_from_fields("line", (b"", parts, [True] * n, b""))
+        it = st.reduce(tc)
+        coreset, tests = set(core), 1
+        for attempt in it:
+            tests += 1
+            it.feedback(coreset <= {index[p] for p in attempt.parts})
+        got = [index[p] for p in it.testcase.parts]
+        ctx.evaluations += 1
+        ctx.bump("reused-strategy")
+        case = dict(kind="line", n=n, core=list(core), m=len(core), reused_strategy_object=True, after_other_sizes=True)
+        if got != sorted(core):
+            ctx.fail("not-the-core", f"one strategy object, files of different sizes, n={n} core={list(core)}: final atoms {got[:20]}", case)
+        if tests > bound(n, len(core)):
+            ctx.fail("too-many-tests", f"one strategy object, files of different sizes, n={n} m={len(core)}: {tests} tests > bound {bound(n, len(core))}", case)
 
 
 def on_disk(ctx, N, do_model=True):
